@@ -52,8 +52,11 @@ def scalarmult(rep, prog):
                 reduced.add(c.dest["l"])
         for c in f.calls():
             var = None
-            if c.path == "std::ops::Mul::mul" and "MontgomeryPoint" in c.full:
+            if c.path == "std::ops::Mul::mul" and ("MontgomeryPoint" in c.full or "EdwardsPoint" in c.full) and "BasepointTable" not in c.full:
                 var = "Mul"
+            elif c.path.startswith("curve25519_dalek::") and c.name in ("mul", "mul_base", "multiscalar_mul", "vartime_multiscalar_mul", "mul_clamped_reduced") \
+                    and "BasepointTable" not in c.full and c.name != "mul_base":
+                var = c.name
             elif c.path in VARBASE_OK or c.path.endswith("MontgomeryPoint::mul_clamped"):
                 var = "mul_clamped"
             if not var:
